@@ -14,8 +14,9 @@ from ..vfsworld import VfsWorld
 class Shape:
     """A family of projects: targets with kinds, candidate references guarded by bits, candidate requested names."""
 
-    def __init__(self, name, root_name, projects, refs, requests):
+    def __init__(self, name, root_name, projects, refs, requests, imports=None):
         self.name = name
+        self.imports = imports            # {project: [projects it imports]}; None = the root imports every other project
         self.root_name = root_name          # None or 'r'
         self.projects = projects            # {project name (None for unnamed root): {'dir': '/r', 'targets': {tname: kind}}}
         self.refs = refs                    # list of (project, target, 'dep'|'out', text)
@@ -38,6 +39,15 @@ class Shape:
         if t not in self.projects[pj]['targets']:
             return ('unknown',)
         return ('ok', (pj, t))
+
+    def import_map(self, pj):
+        """{imported project name: path relative to pj's directory} as written in pj's zinoma.yml."""
+        import os
+        if self.imports is None:
+            others = [o for o in self.projects if o != pj] if pj == self.root_name else []
+        else:
+            others = self.imports.get(pj, [])
+        return {o: os.path.relpath(self.projects[o]['dir'], self.projects[pj]['dir']) for o in others}
 
     def all_targets(self):
         return [(pj, t) for pj, d in self.projects.items() for t in d['targets']]
@@ -107,6 +117,11 @@ def shapes(tier):
                    [('r', 'a', 'dep', 'b'), ('r', 'a', 'dep', 'q::b'), ('r', 'a', 'out', 'b.output'), ('q', 'a', 'dep', 'b'), ('q', 'a', 'out', 'b.output'),
                     ('r', 'b', 'out', 'q::b.output'), ('q', 'b', 'dep', 'r::x'), ('r', 'x', 'dep', 'q::zz'), ('r', 'a', 'dep', 'q::a')],
                    ['a', 'r::a', 'q::a', 'q::b', 'b']))
+    s.append(Shape('nested_imports_same_target_names', 'r',
+                   {'r': {'dir': '/r', 'targets': {'gen': 'build', 'all': 'aggregate'}}, 'q': {'dir': '/r/q', 'targets': {'gen': 'build', 'all': 'aggregate'}},
+                    'u': {'dir': '/r/q/u', 'targets': {'gen': 'build'}}},
+                   [('r', 'all', 'dep', 'gen'), ('r', 'all', 'dep', 'q::all'), ('q', 'all', 'dep', 'gen'), ('q', 'all', 'dep', 'u::gen'), ('u', 'gen', 'dep', 'q::gen')],
+                   ['gen', 'q::gen', 'u::gen', 'all'], imports={'r': ['q'], 'q': ['u']}))
     if tier == 'thorough':
         s.append(Shape('unnamed_root_importing', None,
                        {None: {'dir': '/r', 'targets': {'a': 'build', 'b': 'service'}}, 'q': {'dir': '/q', 'targets': {'a': 'build', 'b': 'aggregate', 'c': 'build'}}},
